@@ -716,3 +716,13 @@ M("C02", "twin: drive term written as one complex exponential pair", "twin", [(H
 M("C02", "twin: detuning subtracted via a negated coefficient", "twin", [(HM, "    c = torch.tensordot(delta, Operators.n, dims=0)", "    c = torch.tensordot(-delta, Operators.n, dims=0)"), (HM, "    single_qubit_terms[:, :2, :2] += a + b - c", "    single_qubit_terms[:, :2, :2] += a + b + c")])
 M("C19", "twin: bracket width taken as an absolute value first", "twin", [(BR, "        delta_ab = self.a - self.b\n", "        delta_ab = self.a - self.b\n        width = abs(self.a - self.b)\n"), (BR, "            (adx >= abs(3 * delta_ab / 4) or dx * delta_ab < 0)", "            (adx >= 3 * width / 4 or dx * delta_ab < 0)")])
 M("C19", "bracket width made absolute, direction test lost", "kill", [(BR, "        delta_ab = self.a - self.b\n", "        delta_ab = abs(self.a - self.b)\n"), (BR, "            (adx >= abs(3 * delta_ab / 4) or dx * delta_ab < 0)", "            adx >= 3 * delta_ab / 4")], "BRENT-inside")
+M("C13", "emu-sv keeps the step's generator only at default evaluation times", "kill",
+  [(SVI, "        self.state.data, self._current_H = self.stepper.apply(", "        self.state.data, hamiltonian = self.stepper.apply("),
+   (SVI, "            self.pulser_lindblads,\n        )\n\n    def _is_evaluation_time(", "            self.pulser_lindblads,\n        )\n        if self._config.is_evaluation_time(self.target_times[step_idx + 1] / self.target_times[-1], tol=1e-10):\n            self._current_H = hamiltonian\n\n    def _is_evaluation_time(")], "ROLE-sv")
+M("C13", "emu-sv drops the step's generator", "kill",
+  [(SVI, "        self.state.data, self._current_H = self.stepper.apply(", "        self.state.data, _ = self.stepper.apply(")], "ROLE-sv")
+M("C01", "emu-sv observables always rebuild the generator from row 0", "kill",
+  [(SVI, "        if not self._current_H and callbacks_for_current_time_step:", "        if callbacks_for_current_time_step:")], "ROLE-sv")
+M("C13", "twin: step result unpacked through a local pair", "twin",
+  [(SVI, "        self.state.data, self._current_H = self.stepper.apply(", "        evolved = self.stepper.apply("),
+   (SVI, "            self.pulser_lindblads,\n        )\n\n    def _is_evaluation_time(", "            self.pulser_lindblads,\n        )\n        self.state.data = evolved[0]\n        self._current_H = evolved[1]\n\n    def _is_evaluation_time(")])
